@@ -94,6 +94,8 @@ class Distogram:  # pragma: no cover
         # matter.
         if len(values) == 0:
             return
+        # the range is read off `values` once the bins are in: a plain sequence must not fail there
+        values = numpy.asarray(values)
         bin_values, counts = numpy.unique(values, return_counts=True)
         if len(bin_values) > (self._bin_count * 5):
             counts, bin_values = numpy.histogram(values, self._bin_count * 5, density=False)
